@@ -225,3 +225,15 @@ def ev_drop_point(b, rd, di, pos, sl, total):
     return _helper(b, rd, di, "drop_point", lambda: drop_point(rd, pos, sl), total,
                    approve=lambda v: v is not None and sl.size > 0, inrange=lambda v: v is None or (isinstance(v, int) and 0 <= v <= size),
                    edit=lambda tr, v, x: tr.replace(v, v, sl), pos=pos, si=b.slice(proj.proj_slice(sl)))
+
+
+def ev_max_open(b, frag, open_iso, total=True):
+    """Slice.max_open(fragment, open_isolating) (C18: isolating nodes can be kept closed)."""
+    from prosemirror.model import Slice
+    toks = proj.proj_fragment(frag)
+    k, v = watchdog.call(lambda: Slice.max_open(frag, open_iso), 3.0)
+    ev = {"ev": "Helper", "di": b.doc(toks), "helper": "max_open", "openIso": bool(open_iso), "total": bool(total),
+          "res": _res((k, v)) if k != "ok" else {"kind": "ok", "none": False, "val": 0}, "os": 0, "oe": 0}
+    if k == "ok":
+        ev["os"], ev["oe"] = v.open_start, v.open_end
+    return b.add(ev)
